@@ -105,6 +105,21 @@ fn check_weed(rep: &mut Report, f: &File, seqs: &[Vec<u8>], what: &str) {
                 break;
             }
         }
+        // --filter-ambig-as-missing only modifies the frequency filter: at --min-freq 0 (no other filter) it changes nothing
+        if rep.evaluations % 3 == 0 {
+            let out3 = scratch::path("c13_out3.skf");
+            let args = WeedArgs { weed_file: Some(wpath.clone()), reverse, min_freq: 0.0, ambig_missing: true, filt: crate::refmodel::Filt::NoFilter, mask: false, nogap: false };
+            rep.corner("weed_with_filter_ambig_as_missing_at_min_freq_0");
+            match ops::op_weed(&f.path, &args, &out3).and_then(|_| FileState::read(&out3)) {
+                Ok(s3) if s3.table == want => {}
+                Ok(s3) => rep.violate(format!("{} ambig-missing", key()), format!("with --filter-ambig-as-missing (and --min-freq 0, no site filter) {} rows are kept, {} without the flag; lost {:?}", s3.table.rows.len(), want.rows.len(), want.rows.keys().filter(|k| !s3.table.rows.contains_key(*k)).take(3).collect::<Vec<_>>()), case()),
+                Err(e) => {
+                    if !want.rows.is_empty() {
+                        rep.violate(format!("{} ambig-missing", key()), format!("weed --filter-ambig-as-missing --min-freq 0 failed: {}", e.chars().take(120).collect::<String>()), case());
+                    }
+                }
+            }
+        }
         // idempotence
         let out2 = scratch::path("c13_out2.skf");
         let again = ops::op_weed(&out, &WeedArgs::plain(&wpath, reverse), &out2).and_then(|_| FileState::read(&out2));
